@@ -188,9 +188,12 @@ def _chunk(args):
                 import traceback
 
                 bad("raised", key, f"{type(e).__name__}: {e} @ {traceback.format_exc().splitlines()[-3].strip()}", rp)
-    else:  # prefix pairs, over a compound pool
+    else:  # prefix pairs, over a compound pool ("pair") or over every unit ("pair-all")
         UL = dict(units_list(sp))
         pool = [sp.unit((None, c)) for c in COMPOUNDS[:4]]
+        if what == "pair-all":
+            # thorough: every named unit and every compound under every ordered prefix pair
+            pool = [sp.unit(spec) for _, spec in units_list(sp)]
         for pn, qn_ in items:
             p, q = PL[pn], PL[qn_]
             key = f"{pn} , {qn_}"
@@ -206,6 +209,11 @@ def _chunk(args):
                     if tol == SAME and p.base and q.base and isinstance(p.exponent, int) and isinstance(q.exponent, int):
                         e = p.exponent + q.exponent if name == "p*q" else p.exponent - q.exponent
                         expect = m_.Prefix(p.base, e)
+                        # exponents of one base add and subtract EXACTLY: an equal float
+                        # (27.0) would make quantify() 1e27 instead of 10**27
+                        if r.base and (not isinstance(r.exponent, int) or r.exponent != e or r.quantify() != (Fraction(p.base) ** e if e < 0 else p.base**e)):
+                            if not (e < 0 and isinstance(r.exponent, int) and r.exponent == e):
+                                bad("prefix_algebra_not_exact", key, f"{name} = {r!r}: exponent {r.exponent!r} ({type(r.exponent).__name__}), quantify() = {r.quantify()!r}; expected exactly {p.base}**{e}", rp)
                         if r is not expect:
                             bad("prefix_algebra_not_exact", key, f"{name} = {r!r}, expected the object {expect!r}", rp)
                 law("identity")
@@ -225,7 +233,7 @@ def _chunk(args):
                         bad("prefix_root_wrong", key, f"({pn}**{n}).root({n}) = {rr!r}", rp)
                 for u in pool:
                     su = sp.oracle.unit_size(u)
-                    for v in pool[:2]:
+                    for v in (pool[:2] if what == "pair" else [pool[0], u]):
                         sv = sp.oracle.unit_size(v)
                         law("unit product/quotient")
                         a = (p * u) * (q * v)
@@ -235,6 +243,9 @@ def _chunk(args):
                         if b.factors != (u / v).factors or not close(sp.oracle.unit_size(b), vp * su / (vq * sv), tol):
                             bad("prefixed_quotient_wrong", key, f"({pn}*{u}) / ({qn_}*{v}) = {b!r}", rp)
                         if tol == SAME and u.prefix.base in (0, p.base or q.base) and v.prefix.base in (0, p.base or q.base):
+                            for res_ in (a, b):
+                                if res_.prefix.base and not isinstance(res_.prefix.exponent, int):
+                                    bad("prefix_algebra_not_exact", key, f"({pn}*{u}) (.) ({qn_}*{v}) carries prefix {res_.prefix!r} with a non-integer exponent", rp)
                             if a is not (p * q) * (u * v) or b is not (p / q) * (u / v):
                                 bad("prefixed_product_not_identical", key, f"({pn}*{u}) (.) ({qn_}*{v})", rp)
                     # stacking prefixes on one unit, and converting between them
@@ -278,7 +289,8 @@ def run(rep, tier):
     else:
         jobs = [(pn, un) for pn, _ in PL for un, _ in UL]
     pairs = [(a, b) for a, _ in PL for b, _ in PL]
-    work = [("unit", c) for c in chunked(rotate(jobs), 64)] + [("pair", c) for c in chunked(rotate(pairs), 48)]
+    work = [("unit", c) for c in chunked(rotate(jobs), 64)]
+    work += [("pair-all" if thorough else "pair", c) for c in chunked(rotate(pairs), 16 if thorough else 48)]
     res = pmap(_chunk, work)
     n = nt = 0
     laws = {}
@@ -311,6 +323,6 @@ def replay(obj, kind=None):
     if obj["what"] == "unit":
         r = _chunk(("unit", [(obj["p"], obj["u"])]))
     else:
-        r = _chunk(("pair", [(obj["p"], obj["q"])]))
+        r = _chunk(("pair-all", [(obj["p"], obj["q"])]))
     hits = [v for v in r["viols"] if kind is None or v[0] == kind]
     return (True, hits[0][2]) if hits else (False, "identities hold")
